@@ -588,8 +588,11 @@ func (c *VirtualTable) Insert(ctx context.Context, values map[int]interface{}) (
 		new.ColumnValues[colName] = &v1proto.ColumnValue{Value: toSQLiteValue(v)}
 		dbg("SET %d %v=%v\n", i, key, v)
 	}
-	merged := MergeRows(key, ot, old, t, &new, t)
-	err = c.Tree.Root.Set(ctx, t, NewKey(key), merged)
+	// The entry keeps the later of the two times, so that a write older than
+	// the stored entry is merged column by column instead of being dropped.
+	mt := laterOf(ot, t)
+	merged := MergeRows(key, ot, old, t, &new, mt)
+	err = c.Tree.Root.Set(ctx, mt, NewKey(key), merged)
 	if err != nil {
 		return 0, fmt.Errorf("set: %w", err)
 	}
@@ -627,8 +630,9 @@ func (c *VirtualTable) Update(ctx context.Context, key interface{}, values map[i
 	// An UPDATE is neither an INSERT nor a DELETE, so it keeps the row's
 	// insert/delete time; otherwise it would outrank a concurrent DELETE.
 	new.DeleteUpdateOffset = durationpb.New(ot.Add(old.DeleteUpdateOffset.AsDuration()).Sub(t))
-	merged := MergeRows(key, ot, old, t, &new, t)
-	err = c.Tree.Root.Set(ctx, t, NewKey(key), merged)
+	mt := laterOf(ot, t)
+	merged := MergeRows(key, ot, old, t, &new, mt)
+	err = c.Tree.Root.Set(ctx, mt, NewKey(key), merged)
 	if err != nil {
 		return fmt.Errorf("set: %w", err)
 	}
@@ -647,8 +651,9 @@ func (c *VirtualTable) Delete(ctx context.Context, key interface{}) error {
 	}
 	t := updateTime(ctx)
 	new.Deleted = true
-	merged := MergeRows(key, ot, old, t, &new, t)
-	err = c.Tree.Root.Set(ctx, t, NewKey(key), merged)
+	mt := laterOf(ot, t)
+	merged := MergeRows(key, ot, old, t, &new, mt)
+	err = c.Tree.Root.Set(ctx, mt, NewKey(key), merged)
 	if err != nil {
 		return fmt.Errorf("set: %w", err)
 	}
@@ -656,6 +661,13 @@ func (c *VirtualTable) Delete(ctx context.Context, key interface{}) error {
 }
 
 // REMOVE var maxTime = time.Unix(1<<63-62135596801, 999999999)
+
+func laterOf(a, b time.Time) time.Time {
+	if a.After(b) {
+		return a
+	}
+	return b
+}
 
 func mergeValues(_ interface{}, i1, i2 crdt.Value) crdt.Value {
 	if i1.Tombstoned() || i2.Tombstoned() {
